@@ -76,7 +76,7 @@ def run(c):
     if len(cases) != len(algs) * len(fx) * len(replies):
         raise Machinery("expected %d emitted cases, got %d" % (len(algs) * len(fx) * len(replies), len(cases)))
     small = dict(consts, ReplyTypes="@{5, 13, 14, 15}")
-    for mut, inv in [kv for kv in MUTATIONS.items() if not c.quick or kv[0] in ("flags_swapped", "any_reply_accepted")]:
+    for mut, inv in [kv for kv in MUTATIONS.items() if not c.quick or kv[0] == "no_cert_forms"]:
         c.mc("AgentSign", cfg_text(constants=dict(small, Mutation=mut), invariants=invs), expect=inv, name="mutation " + mut, workers=4)
 
     # ---- RP: spec -> code
